@@ -1500,7 +1500,7 @@ func (e *CoreExtension) filterReverse(value interface{}, args ...interface{}) (i
 		return string(runes), nil
 	case reflect.Array, reflect.Slice:
 		// Create a new slice with the same type
-		resultSlice := reflect.MakeSlice(rv.Type(), rv.Len(), rv.Len())
+		resultSlice := reflect.MakeSlice(reflect.SliceOf(rv.Type().Elem()), rv.Len(), rv.Len())
 		for i, j := 0, rv.Len()-1; j >= 0; i, j = i+1, j-1 {
 			resultSlice.Index(i).Set(rv.Index(j))
 		}
@@ -1666,7 +1666,7 @@ func (e *CoreExtension) filterSlice(value interface{}, args ...interface{}) (int
 			start = 0
 		}
 		if start >= count {
-			return reflect.MakeSlice(rv.Type(), 0, 0).Interface(), nil
+			return reflect.MakeSlice(reflect.SliceOf(rv.Type().Elem()), 0, 0).Interface(), nil
 		}
 
 		// Calculate end index
@@ -1687,7 +1687,7 @@ func (e *CoreExtension) filterSlice(value interface{}, args ...interface{}) (int
 		}
 
 		// Create a new slice with the same type
-		result := reflect.MakeSlice(rv.Type(), end-start, end-start)
+		result := reflect.MakeSlice(reflect.SliceOf(rv.Type().Elem()), end-start, end-start)
 		for i := start; i < end; i++ {
 			result.Index(i - start).Set(rv.Index(i))
 		}
@@ -1763,7 +1763,7 @@ func (e *CoreExtension) filterMerge(value interface{}, args ...interface{}) (int
 			argRv := reflect.ValueOf(arg)
 			if argRv.Kind() == reflect.Slice || argRv.Kind() == reflect.Array {
 				// Create a new slice with expanded capacity
-				newResult := reflect.MakeSlice(rv.Type(), result.Len()+argRv.Len(), result.Len()+argRv.Len())
+				newResult := reflect.MakeSlice(result.Type(), result.Len()+argRv.Len(), result.Len()+argRv.Len())
 
 				// Copy existing values
 				for i := 0; i < result.Len(); i++ {
@@ -1784,6 +1784,16 @@ func (e *CoreExtension) filterMerge(value interface{}, args ...interface{}) (int
 
 	// Handle merging maps
 	if rv.Kind() == reflect.Map {
+		// A typed map can only take keys and values of its own types: merge
+		// into a generic map when an argument holds anything else
+		for _, arg := range args {
+			argRv := reflect.ValueOf(arg)
+			if argRv.Kind() == reflect.Map &&
+				(!argRv.Type().Key().AssignableTo(rv.Type().Key()) || !argRv.Type().Elem().AssignableTo(rv.Type().Elem())) {
+				return e.functionMerge(append([]interface{}{value}, args...)...)
+			}
+		}
+
 		// Create a new map with the same key and value types
 		resultMap := reflect.MakeMap(rv.Type())
 
@@ -1890,7 +1900,7 @@ func (e *CoreExtension) filterSort(value interface{}, args ...interface{}) (inte
 	// Try reflection for other types
 	rv := reflect.ValueOf(value)
 	if rv.Kind() == reflect.Slice || rv.Kind() == reflect.Array {
-		result := reflect.MakeSlice(rv.Type(), rv.Len(), rv.Len())
+		result := reflect.MakeSlice(reflect.SliceOf(rv.Type().Elem()), rv.Len(), rv.Len())
 		for i := 0; i < rv.Len(); i++ {
 			result.Index(i).Set(rv.Index(i))
 		}
